@@ -219,8 +219,10 @@ def check_input_binarize(ctx, case):
         if lm != case["leafmap"]:
             ctx.viol("C08.input_binarize", case, f"leaf assignment changed by binarize(): {lm}")
         if case.get("syn") is not None:
-            ls = {n.name: list(s) for n, s in inp.leaf_syntenies.items() if n.is_leaf()}
-            if ls != {k: list(v) for k, v in case["syn"].items()}:
+            unordered_in = SC.kind_of(case.get("algo", "superdtl")) == "unordered"
+            norm = (lambda s: sorted(s)) if unordered_in else (lambda s: list(s))  # unordered syntenies are sets of families
+            ls = {n.name: norm(s) for n, s in inp.leaf_syntenies.items() if n.is_leaf()}
+            if ls != {k: norm(v) for k, v in case["syn"].items()}:
                 ctx.viol("C08.input_binarize", case, "leaf syntenies changed by binarize()")
             extra = {n: list(s) for n, s in inp.leaf_syntenies.items() if not n.is_leaf()}
             want_extra = {inp.object_tree: list(case["root_order"])} if case.get("root_order") else {}
@@ -317,8 +319,9 @@ def check_e2e(ctx, case):
             lm = {n.name: s.name for n, s in out.input.leaf_object_species.items()}
             if lm != case["leafmap"]:
                 ctx.viol("C08.e2e", case, f"{algo}/{pol}: leaf assignment of the returned solution differs from the input")
-            ls = {n.name: list(s) for n, s in out.input.leaf_syntenies.items() if n.is_leaf()}
-            if ls != {k: list(v) for k, v in case["syn"].items()}:
+            norm = (lambda s: sorted(s)) if kind == "unordered" else (lambda s: list(s))
+            ls = {n.name: norm(s) for n, s in out.input.leaf_syntenies.items() if n.is_leaf()}
+            if ls != {k: norm(v) for k, v in case["syn"].items()}:
                 ctx.viol("C08.e2e", case, f"{algo}/{pol}: leaf syntenies of the returned solution differ from the input")
             if case.get("root_order") and list(out.input.leaf_syntenies.get(out.input.object_tree, ())) != list(case["root_order"]):
                 ctx.viol("C08.e2e", case, f"{algo}/{pol}: the prescribed root synteny is not kept in the returned solution's input")
@@ -417,6 +420,16 @@ def random_poly_case(rng, algo, max_obj, max_sp):
                 costs["hgt"] = "inf"
         case = {"kind": "e2e", "algo": algo, "G": G, "S": S, "leafmap": lm, "costs": costs,
                 "syn": gen.random_syntenies(rng, list(lm), 3, ordered=ordered, consistent_p=1.0), "named": named}
+        r = rng.random()
+        if ordered and r < 0.5:
+            # syntenies handed over as tuples, or as strings of one-letter family names in a non-alphabetical order
+            case["syn_form"] = "tuple"
+            if r < 0.25:
+                ren = dict(zip(["f0", "f1", "f2"], rng.sample(["c", "a", "d", "b"], 3)))
+                case["syn"] = {g: [ren[f] for f in fs] for g, fs in case["syn"].items()}
+                case["syn_form"] = "str"
+        elif not ordered and r < 0.4:
+            case["syn_form"] = "set" if r < 0.2 else "frozenset"
         if ordered and named and rng.random() < 0.4:
             # prescribed root order (possibly with a family that no leaf carries): it must survive the refinement too.
             # Only with a named root, as in the documented file format (syntenies are keyed by node name); the unnamed
